@@ -44,7 +44,7 @@ pub const OPS: [&str; N_OPS] = [
 fn base_profile(name: &'static str) -> Profile {
     Profile {
         name,
-        w: [14, 10, 10, 8, 4, 4, 12, 4, 1, 3, 3, 2, 4, 2, 8, 2, 2, 0, 1, 1],
+        w: [14, 10, 10, 8, 4, 4, 12, 4, 1, 3, 3, 2, 4, 2, 8, 2, 2, 1, 1, 1],
         env: [10, 3, 3, 2, 1, 1, 1, 1],
         env_per_block_pct: 35,
         tx_fault_pct: 10,
@@ -64,39 +64,39 @@ pub fn profile_for(prop: &str) -> Profile {
     match prop {
         "C01" => {
             p.name = "c01";
-            p.w = [12, 10, 14, 12, 3, 3, 22, 2, 0, 2, 1, 4, 1, 2, 3, 1, 1, 0, 0, 3];
+            p.w = [12, 10, 14, 12, 3, 3, 22, 2, 0, 2, 1, 4, 1, 2, 3, 1, 1, 1, 0, 3];
             p.env = [4, 3, 8, 5, 0, 0, 0, 0];
             p.forks = vec![("c01_order", 6)];
         }
         "C02" => {
             p.name = "c02";
-            p.w = [16, 12, 10, 9, 5, 5, 8, 1, 0, 1, 1, 1, 1, 5, 8, 8, 1, 0, 0, 1];
+            p.w = [16, 12, 10, 9, 5, 5, 8, 1, 0, 1, 1, 1, 1, 5, 8, 8, 1, 1, 0, 1];
             p.env = [8, 8, 4, 3, 2, 0, 0, 3];
         }
         "C03" | "C04" => {
             p.name = "c03_c04";
-            p.w = [14, 12, 10, 10, 8, 8, 8, 2, 0, 1, 2, 2, 1, 4, 8, 3, 2, 0, 0, 1];
+            p.w = [14, 12, 10, 10, 8, 8, 8, 2, 0, 1, 2, 2, 1, 4, 8, 3, 2, 1, 0, 1];
             p.env = [8, 6, 4, 3, 0, 0, 0, 1];
         }
         "C05" => {
             p.name = "c05";
-            p.w = [14, 8, 14, 6, 14, 12, 6, 1, 0, 1, 1, 2, 0, 3, 3, 1, 4, 0, 0, 0];
+            p.w = [14, 8, 14, 6, 14, 12, 6, 1, 0, 1, 1, 2, 0, 3, 3, 1, 4, 1, 0, 0];
             p.env = [3, 12, 3, 1, 0, 0, 0, 0];
             p.slash_first = true;
         }
         "C06" => {
             p.name = "c06";
-            p.w = [12, 12, 12, 12, 4, 4, 14, 1, 0, 1, 1, 2, 0, 8, 3, 2, 0, 0, 0, 1];
+            p.w = [12, 12, 12, 12, 4, 4, 14, 1, 0, 1, 1, 2, 0, 8, 3, 2, 0, 1, 0, 1];
             p.env = [2, 12, 12, 3, 0, 0, 0, 1];
         }
         "C07" => {
             p.name = "c07";
-            p.w = [12, 12, 14, 14, 3, 3, 10, 3, 1, 6, 3, 12, 0, 1, 2, 1, 1, 0, 2, 2];
+            p.w = [12, 12, 14, 14, 3, 3, 10, 3, 1, 6, 3, 12, 0, 1, 2, 1, 1, 1, 2, 2];
             p.tx_fault_pct = 25;
         }
         "C08" => {
             p.name = "c08";
-            p.w = [10, 10, 16, 14, 2, 2, 20, 1, 0, 1, 0, 3, 0, 1, 2, 1, 3, 0, 0, 3];
+            p.w = [10, 10, 16, 14, 2, 2, 20, 1, 0, 1, 0, 3, 0, 1, 2, 1, 3, 1, 0, 3];
             p.env = [2, 2, 3, 2, 0, 0, 0, 0];
             p.len = (40, 220);
         }
@@ -123,18 +123,18 @@ pub fn profile_for(prop: &str) -> Profile {
         }
         "C12" | "C13" => {
             p.name = "c12_c13";
-            p.w = [16, 12, 12, 10, 2, 2, 6, 1, 0, 0, 0, 1, 0, 2, 8, 16, 0, 0, 0, 0];
+            p.w = [16, 12, 12, 10, 2, 2, 6, 1, 0, 0, 0, 1, 0, 2, 8, 16, 0, 1, 0, 0];
             p.env = [8, 8, 3, 1, 5, 0, 0, 5];
         }
         "C14" | "C15" | "C16" => {
             p.name = "c14_c16";
-            p.w = [18, 4, 8, 2, 5, 5, 3, 10, 4, 6, 8, 3, 14, 1, 14, 1, 3, 0, 0, 0];
+            p.w = [18, 4, 8, 2, 5, 5, 3, 10, 4, 6, 8, 3, 14, 1, 14, 1, 3, 1, 0, 0];
             p.env = [16, 2, 1, 3, 0, 0, 2, 0];
             p.forks = vec![("c15_split", 3), ("c15_relational", 3)];
         }
         "C17" | "C19" => {
             p.name = "c17_c19";
-            p.w = [12, 12, 5, 5, 3, 3, 3, 2, 0, 0, 0, 1, 3, 2, 26, 4, 4, 0, 0, 0];
+            p.w = [12, 12, 5, 5, 3, 3, 3, 2, 0, 0, 0, 1, 3, 2, 26, 4, 4, 1, 0, 0];
             p.env = [24, 3, 1, 4, 1, 0, 4, 1];
         }
         "C18" => {
@@ -165,6 +165,12 @@ pub fn gen_cfg(rng: &mut Rng, p: &Profile, fault_free: bool) -> Cfg {
     c.users = rng.range(2, 8) as usize;
     c.chain_validators = rng.range(1, 6) as usize;
     c.registered_validators = rng.range(1, (c.chain_validators as u64).min(5)) as usize;
+    // a minority of deployments: validator sets beyond ten, upper-case validator addresses
+    if rng.chance(1, 12) {
+        c.chain_validators = rng.range(9, 14) as usize;
+        c.registered_validators = rng.range(8, c.chain_validators as u64) as usize;
+    }
+    c.upper_validators = rng.chance(1, 8);
     if p.deep {
         c.users = rng.range(6, 16) as usize;
         c.chain_validators = rng.range(3, 12) as usize;
@@ -371,6 +377,11 @@ impl Gen {
     }
 
     pub fn gen_op(&mut self, sim: &Sim) -> Option<Op> {
+        // outside the pause-focused family a pause is short: a paused hub is un-paused again
+        // after three operations on average (queries and the checks on them keep running)
+        if self.p.name != "c11" && self.p.w[17] > 0 && sim.obs.hub.as_ref().map(|h| h.params.paused.unwrap_or(false) && h.legacy_wait_entries == 0).unwrap_or(false) && self.rng.chance(1, 3) {
+            return self.gen_op_cat(sim, 17);
+        }
         let cat = self.rng.pick_weighted(&self.p.w);
         self.gen_op_cat(sim, cat)
     }
@@ -870,7 +881,7 @@ impl Gen {
                 if n >= 8 {
                     return None;
                 }
-                Some(EnvEv::NewChainValidator { name: format!("val{}", n) })
+                Some(EnvEv::NewChainValidator { name: if sim.cfg.upper_validators && n % 2 == 1 { format!("VAL{}", n) } else { format!("val{}", n) } })
             }
         }
     }
